@@ -22,6 +22,7 @@ import (
 	"strings"
 	"testing"
 
+	"github.com/btcsuite/btcd/btcec/v2"
 	"github.com/btcsuite/btcd/btcutil/v2"
 	sphinx "github.com/lightningnetwork/lightning-onion"
 	"github.com/lightningnetwork/lnd/fn/v2"
@@ -31,6 +32,7 @@ import (
 	"github.com/lightningnetwork/lnd/lnwire"
 	paymentsdb "github.com/lightningnetwork/lnd/payments/db"
 	"github.com/lightningnetwork/lnd/routing/route"
+	"github.com/lightningnetwork/lnd/zpay32"
 )
 
 type c19Pol struct {
@@ -109,6 +111,16 @@ type c19Chan struct {
 	// hint marks a route hint (additional edge a->b, not in the graph):
 	// only p1 is used, capacity is fakeHopHintCapacity.
 	hint bool
+
+	// inv marks a hop hint of an invoice route hint as the payer supplies
+	// it (zpay32.HopHint: start node, channel id, base fee, fee rate, delta);
+	// the hop hints of one route hint (same chain id, in slice order) are
+	// chained: each leads to the start node of the next one, the last one to
+	// the target. These are converted by the real RouteHintsToEdges; b is
+	// DERIVED from the hint list (c19Case.fixInvHints), never read back from
+	// the edge objects.
+	inv   bool
+	chain int
 }
 
 // c19HintEdge is an AdditionalEdge that records every payload-size query of
@@ -189,6 +201,43 @@ func (cs *c19Case) clone() *c19Case {
 		c.bw[k] = v
 	}
 	return &c
+}
+
+// invChains returns the invoice route hints of the case: indices into chans,
+// grouped by chain id in order of first appearance, hop hints in slice order.
+func (cs *c19Case) invChains() [][]int {
+	var (
+		out [][]int
+		pos = map[int]int{}
+	)
+	for i, ch := range cs.chans {
+		if !ch.inv {
+			continue
+		}
+		k, ok := pos[ch.chain]
+		if !ok {
+			k = len(out)
+			pos[ch.chain] = k
+			out = append(out, nil)
+		}
+		out[k] = append(out[k], i)
+	}
+
+	return out
+}
+
+// fixInvHints sets the end node of every invoice hop hint as the hint list
+// declares it: the start node of the next hop hint of the same route hint, the
+// target for the last one.
+func (cs *c19Case) fixInvHints() {
+	for _, chain := range cs.invChains() {
+		for j, i := range chain {
+			cs.chans[i].b = cs.tgt
+			if j+1 < len(chain) {
+				cs.chans[i].b = cs.chans[chain[j+1]].a
+			}
+		}
+	}
 }
 
 // c19Graph is an in-memory implementation of the routing.Graph interface.
@@ -535,6 +584,43 @@ func (c *c19) genCase() *c19Case {
 				hint: true,
 			})
 		}
+	case c.chance(0.25) && cs.n >= 3:
+		// invoice route hints as a payer supplies them: 1-3 route hints of
+		// 1-3 chained hop hints each (the receiver sits behind private
+		// channels), converted by the real RouteHintsToEdges.
+		if c.chance(0.6) && cs.tgt != cs.src && cs.tgt != cs.self {
+			// the receiver is only reachable over its private channels.
+			var keep []c19Chan
+			for _, ch := range cs.chans {
+				if ch.a != cs.tgt && ch.b != cs.tgt {
+					keep = append(keep, ch)
+				}
+			}
+			cs.chans = keep
+		}
+		next := uint64(len(cs.chans) + 1000)
+		for k := 0; k < 1+r.Intn(3); k++ {
+			ln := int(c.pick(1, 2, 2, 3))
+			var nodes []int
+			for _, v := range r.Perm(cs.n) {
+				if v != cs.tgt && v != cs.self && len(nodes) < ln {
+					nodes = append(nodes, v)
+				}
+			}
+			for _, x := range nodes {
+				p := &c19Pol{
+					base: c.pick(0, 1, 1000, 1000, 5000,
+						uint64(r.Intn(3000))),
+					rate: c.pick(0, 1, 100, 2500, 40000, 1000000,
+						uint64(r.Intn(5000))),
+					delta: uint16(c.pick(0, 1, 18, 40, 40, 80, 144,
+						uint64(r.Intn(300)))),
+				}
+				cs.chans = append(cs.chans, c19Chan{id: next, a: x,
+					b: cs.tgt, p1: p, hint: true, inv: true, chain: k})
+				next++
+			}
+		}
 	case c.chance(0.15):
 		cs.metaLen = int(c.pick(1100, 1150, 1200))
 	}
@@ -702,6 +788,7 @@ func (c *c19) run(cs *c19Case, g Graph, sess GraphSessionFactory,
 	keys []route.Vertex) *c19Result {
 
 	c.n++
+	cs.fixInvHints()
 	idx := make(map[route.Vertex]int)
 	for i, k := range keys {
 		idx[k] = i
@@ -752,7 +839,7 @@ func (c *c19) run(cs *c19Case, g Graph, sess GraphSessionFactory,
 			graphFrom[ch.a], graphFrom[ch.b] = true, true
 			continue
 		}
-		if ch.p1 == nil {
+		if ch.p1 == nil || ch.inv {
 			continue
 		}
 		// hop hints are not gossip policies.
@@ -782,6 +869,58 @@ func (c *c19) run(cs *c19Case, g Graph, sess GraphSessionFactory,
 			PrivateEdge: PrivateEdge{policy: pol},
 			from:        ch.a, to: ch.b, chanID: ch.id, log: &storedLog,
 		})
+	}
+	// Invoice route hints: the payer's input is the list of chained hop hints;
+	// it is printed as given (start node, channel, fee, delta per hop hint, one
+	// line per route hint) and converted by the real RouteHintsToEdges. The
+	// driver derives the topology from the printed hint list.
+	if chains := cs.invChains(); len(chains) > 0 {
+		var routeHints [][]zpay32.HopHint
+		decl := map[uint64]c19Chan{}
+		for _, chain := range chains {
+			var (
+				hops  []zpay32.HopHint
+				parts []string
+			)
+			for _, i := range chain {
+				ch := cs.chans[i]
+				pub, err := btcec.ParsePubKey(keys[ch.a][:])
+				if err != nil {
+					panic(err)
+				}
+				hops = append(hops, zpay32.HopHint{
+					NodeID:                    pub,
+					ChannelID:                 ch.id,
+					FeeBaseMSat:               uint32(ch.p1.base),
+					FeeProportionalMillionths: uint32(ch.p1.rate),
+					CLTVExpiryDelta:           ch.p1.delta,
+				})
+				parts = append(parts, fmt.Sprintf("%d:%d:%d:%d:%d", ch.a,
+					ch.id, uint32(ch.p1.base), uint32(ch.p1.rate),
+					ch.p1.delta))
+				decl[ch.id] = ch
+				hintFrom[ch.a] = true
+			}
+			routeHints = append(routeHints, hops)
+			c.pf("rhint %s", strings.Join(parts, ","))
+		}
+		edges, err := RouteHintsToEdges(routeHints, keys[cs.tgt])
+		if err != nil {
+			panic(err)
+		}
+		// Keep the slice order per start node; wrap every edge so that its
+		// payload-size queries are logged (the policy object, including
+		// its ToNodePubKey closure, is the one the real code built).
+		for v, es := range edges {
+			for _, e := range es {
+				pe := e.(*PrivateEdge)
+				d := decl[pe.policy.ChannelID]
+				addEdges[v] = append(addEdges[v], &c19HintEdge{
+					PrivateEdge: *pe, from: d.a, to: d.b,
+					chanID: d.id, log: &storedLog,
+				})
+			}
+		}
 	}
 	if len(addEdges) == 0 {
 		addEdges = nil
@@ -1232,6 +1371,17 @@ func (c *c19) derive(cs *c19Case, rt *route.Route, chanMut bool) *c19Case {
 			16, 17)
 	}
 	m := menu[r.Intn(len(menu))]
+	if ch := chanOf(d, i); ch != nil && ch.inv && m >= 9 && m <= 15 {
+		// a hop hint only carries base fee, fee rate and delta.
+		m = int(c.pick(14, 16, 17))
+	}
+	if m == 13 {
+		for j := 0; j < nh; j++ {
+			if ch := chanOf(d, j); ch != nil && ch.inv {
+				m = 14
+			}
+		}
+	}
 	switch m {
 	case 0:
 		d.feeLimit = fee
@@ -1432,8 +1582,9 @@ func TestVerifC19(t *testing.T) {
 	}
 	defer c.w.Flush()
 
-	c.pf("FACT riskFactorBillionths=%d blockPadding=%d feeRateParts=%d",
-		RiskFactorBillionths, BlockPadding, 1000000)
+	c.pf("FACT riskFactorBillionths=%d blockPadding=%d feeRateParts=%d "+
+		"hintcap=%d", RiskFactorBillionths, BlockPadding, 1000000,
+		int64(fakeHopHintCapacity))
 
 	nMem, nDB := 3000, 300
 	if thorough {
